@@ -377,7 +377,8 @@ def _stmt_end(text, start, hi, else_chain=True):
             elif c in ")]}":
                 depth -= 1
                 if depth < 0:
-                    raise ExtractError("statement at offset %d runs past its enclosing block" % start)
+                    # the enclosing block ends before any `;`: the anchor starts the block's TAIL EXPRESSION
+                    return i
                 if depth == 0 and c == "}" and blockish:
                     end = i + 1
                     while else_chain:
@@ -393,6 +394,8 @@ def _stmt_end(text, start, hi, else_chain=True):
             elif c == ";" and depth == 0:
                 return i + 1
         i = j
+    if depth == 0:
+        return hi   # tail expression of the function body
     raise ExtractError("statement at offset %d is not terminated" % start)
 
 
